@@ -169,7 +169,7 @@ def impl_load(raw, data_file, exp_name=None, rerun=False, run_filter=None, argv=
     cur = {"file": None}
 
     def hook(self, dp, warmup):
-        if cur["file"] == watch:
+        if cur["file"] == watch or (watch == "*" and cur["file"] is not None):
             res.dps.append((self, [(m.invocation, m.iteration, m.is_total(), int(round(m.value * 1000000)))
                                    for m in dp.get_measurements()]))
         return orig(self, dp, warmup)
